@@ -657,7 +657,20 @@ impl Laid {
     /// the known class: a block container (compute_inner's test; a leaf's own test includes its height) reports
     /// margins_can_collapse_through although its used height is positive
     fn in_known_class(&self, n: usize) -> bool {
-        self.is_block_container(n) && self.ct_reported(n) && self.t.nodes[n].unrounded.size.height > 0.0
+        self.is_block_container(n) && self.ct_reported(n) && self.t.nodes[n].unrounded.size.height > 0.0 && !self.lengths_prevent_ct(n)
+    }
+    /// CSS: a box whose height or min-height is a positive LENGTH, or that has positive top/bottom padding or border lengths,
+    /// can never be collapsed through.  The recorded finding is about heights that become positive in other ways (percentages,
+    /// aspect ratio ...); a box with such lengths that still reports collapse-through is a new failure, not the known class.
+    fn lengths_prevent_ct(&self, n: usize) -> bool {
+        let s = &self.t.nodes[n].style;
+        let pos = |c: CompactLength| c.tag() == CompactLength::LENGTH_TAG && c.value() > 0.0;
+        pos(s.size.height.into_raw())
+            || pos(s.min_size.height.into_raw())
+            || pos(s.padding.top.into_raw())
+            || pos(s.padding.bottom.into_raw())
+            || pos(s.border.top.into_raw())
+            || pos(s.border.bottom.into_raw())
     }
     fn subtree_margins_nonneg(&self, n: usize) -> bool {
         let s = &self.t.nodes[n].style;
